@@ -232,6 +232,37 @@ class Ownership:
                 par = getattr(n, "_parent", None)
                 kind = "other"
                 ok = False
+                cur_ = n
+                # ``None if ir is None else ir._local_uuid_cache``: the table or nothing
+                while isinstance(par, ast.IfExp) and cur_ in (par.body, par.orelse):
+                    cur_, par = par, getattr(par, "_parent", None)
+                if cur_ is not n:
+                    if isinstance(par, ast.Call) and cur_ in par.args:
+                        p = attr_path(par.func)
+                        if p and p[-1] in ("_add_to_uuid_cache", "_remove_from_uuid_cache"):
+                            kind, ok = "pass-to-%s" % p[-1], True
+                    elif isinstance(par, ast.Compare) and len(par.ops) == 1 and isinstance(par.ops[0], (ast.Is, ast.IsNot)) \
+                            and any(isinstance(x, ast.Constant) and x.value is None for x in [par.left] + par.comparators):
+                        kind, ok = "presence-test", True
+                    elif isinstance(par, ast.Assign) and len(par.targets) == 1 and isinstance(par.targets[0], ast.Name):
+                        nm_ = par.targets[0].id
+                        loads = [x for x in walk_no_nested(f.node) if isinstance(x, ast.Name) and x.id == nm_
+                                 and isinstance(x.ctx, ast.Load)]
+
+                        def fine(x: ast.AST) -> bool:
+                            px = getattr(x, "_parent", None)
+                            if isinstance(px, ast.Call) and x in px.args:
+                                pp = attr_path(px.func)
+                                return bool(pp) and pp[-1] in ("_add_to_uuid_cache", "_remove_from_uuid_cache")
+                            return isinstance(px, ast.Compare) and len(px.ops) == 1 and \
+                                isinstance(px.ops[0], (ast.Is, ast.IsNot))
+                        if loads and all(fine(x) for x in loads):
+                            kind, ok = "local-alias", True
+                    self.add("C03", "R03.1", "%s:%s(_local_uuid_cache)" % (f.qualname, kind), ok, f.loc(n),
+                             "use of the UUID table as '%s' in %s is outside the allowed set "
+                             "{create/self-register in IR.__init__, read in IR.get_by_uuid, pass to "
+                             "_add_to_uuid_cache/_remove_from_uuid_cache}" % (kind, f.qualname), 2)
+                    continue
                 if isinstance(par, ast.Call) and n in par.args:
                     p = attr_path(par.func)
                     if p and p[-1] in ("_add_to_uuid_cache", "_remove_from_uuid_cache"):
@@ -433,17 +464,23 @@ class Ownership:
         cadd = self._calls(cfg, is_cache_add)
         exc = set() if rel.owner.name == "IR" else self._none_branches(cfg, irp, al, True)
         wit = every_path(cadd, exc)
-        self.add("C03", "R03.3", "%s:table-add" % key, wit is None, f.loc(w),
-                 "a path through %s attaches %s without registering its subtree in the owner's "
-                 "IR table (%s), or the guard is not 'owner's ir is not None': %s"
-                 % (key, elem, ".".join(cache_arg), _p(cfg, wit)), 3)
-        # any other _add_to_uuid_cache call with a different table is a misrouted registration
+
         def is_any_cache_add(c: ast.Call) -> bool:
             p = attr_path(c.func)
             return bool(p) and p[-1] == "_add_to_uuid_cache"
         stray = self._calls(cfg, is_any_cache_add) - cadd
+        # a registration whose table argument is not an attribute path (a conditional expression,
+        # a call) is a spelling this rule does not follow: undecided (facts < 0), not a violation
+        opaque = [c_ for c_ in walk_no_nested(f.node) if isinstance(c_, ast.Call) and is_any_cache_add(c_)
+                  and len(c_.args) == 1 and expand_path(c_.args[0], al) is None]
+        und = -1 if (opaque and not cadd) else 3
+        self.add("C03", "R03.3", "%s:table-add" % key, wit is None, f.loc(w),
+                 "a path through %s attaches %s without registering its subtree in the owner's "
+                 "IR table (%s), or the guard is not 'owner's ir is not None': %s"
+                 % (key, elem, ".".join(cache_arg), _p(cfg, wit)), und)
+        # any other _add_to_uuid_cache call with a different table is a misrouted registration
         self.add("C03", "R03.3", "%s:table-add-target" % key, not stray, f.loc(w),
-                 "%s registers into a table other than the owner's IR table" % key, 1)
+                 "%s registers into a table other than the owner's IR table" % key, -1 if und < 0 else 1)
 
         # (d) index
         if "_index_add" in rel.owner.methods or rel.owner.find_method("_index_add"):
